@@ -64,6 +64,9 @@ impl Command for TextWindow {
             4 => (16, 14),
             _ => (8, 8),
         };
+        if self.x0 > self.x1 || self.y0 > self.y1 {
+            return Err(anyhow::Error::msg("Invalid text window"));
+        }
         if self.x0 == 0 && self.y0 == 0 && self.x1 == 0 && self.y1 == 0 && self.size == 0 && !self.wrap {
             bgi.suspend_text = !bgi.suspend_text;
         }
